@@ -27,18 +27,9 @@ var c19StdKinds = map[string]bool{
 	"reentrant": true,
 }
 
-var c19TmpDir string
-
-func c19Tmp() string {
-	if c19TmpDir == "" {
-		d, err := os.MkdirTemp("", "c19-")
-		if err != nil {
-			d = os.TempDir()
-		}
-		c19TmpDir = d
-	}
-	return c19TmpDir
-}
+// c19Tmp is where the real files of the file destinations live (each is removed
+// as soon as its WriteTo call has been checked).
+func c19Tmp() string { return os.TempDir() }
 
 // reentrantWriter hands everything to a simWriter, and during its second Write
 // (or its first, if there is only one) asks the module it is being given for its
